@@ -40,7 +40,7 @@
 (* pieces vs. the same text parsed whole by a fresh parser of a fresh      *)
 (* interpreter.                                                            *)
 (***************************************************************************)
-EXTENDS Integers, Sequences, FiniteSets
+EXTENDS Integers, Sequences, FiniteSets, SequencesExt
 
 (* ------------------------------------------------------------------ *)
 (* Alphabet.  Base classes (the 20 of DESIGN.md):                      *)
@@ -75,8 +75,7 @@ Match(o, c) == (o = "(" /\ c = ")") \/ (o = "[" /\ c = "]") \/ (o = "{" /\ c = "
 (*      % ^ ~), else "none"  (ec and lt are used only by named deviations)*)
 A0 == [m |-> "code", st |-> <<>>, ec |-> <<>>, at |-> "none", q |-> "exact", n |-> 0, lt |-> "none"]
 
-Front(s) == SubSeq(s, 1, Len(s) - 1)
-Last(s)  == s[Len(s)]
+(* Front(s) and Last(s) (all but the last / the last element) come from SequencesExt *)
 
 Fz(s)   == [s EXCEPT !.q = IF @ = "lost" THEN "lost" ELSE "fuzzy"]
 Lose(s) == [s EXCEPT !.q = "lost"]
@@ -111,7 +110,9 @@ Code(s, c, DevStar) ==
       [] c = "/"  -> [s EXCEPT !.m = "slash"]      \* a/ : the atom ends here, whatever follows
       [] c = "q"  -> IF s.at = "none" THEN Fz([s EXCEPT !.lt = "prefix"]) ELSE Lose(s)
       [] c = "t"  -> IF s.at = "none" THEN Fz([s EXCEPT !.m = "tilde"]) ELSE Lose(s)
-      [] c = "a"  -> SetAt(s, IF s.at \in {"none", "sym"} THEN "sym" ELSE "odd")
+      [] c = "a"  -> (* "- Inf" is one number: a word right after a lone sign leaves the count open *)
+                     LET t == SetAt(s, IF s.at \in {"none", "sym"} THEN "sym" ELSE "odd") IN
+                     IF s.lt = "minus" /\ s.at = "none" THEN Fz(t) ELSE t
       [] c = "x"  -> SetAt(s, "odd")
       [] c = "1"  -> SetAt(s, CASE s.at = "none" -> "int" [] s.at \in {"sym", "int", "flt"} -> s.at [] OTHER -> "odd")
       [] c = "."  -> SetAt(s, CASE s.at = "sym" -> "sym" [] s.at = "int" -> "flt" [] OTHER -> "odd")
@@ -170,10 +171,10 @@ Step(s, c, DevStar) ==
            ELSE Lose([s EXCEPT !.m = "code"])
       [] OTHER -> Lose(s)
 
-(* run the automaton from state s over text[i..j] *)
-RECURSIVE RunIx(_, _, _, _, _)
+(* run the automaton from state s over text[i..j] (a fold: TLC evaluates deep *)
+(* recursion over a long text in quadratic time)                              *)
 RunIx(s, text, i, j, DevStar) ==
-    IF i > j THEN s ELSE RunIx(Step(s, text[i], DevStar), text, i + 1, j, DevStar)
+    FoldLeft(LAMBDA a, c : Step(a, c, DevStar), s, SubSeq(text, i, j))
 RunFrom(s, text, DevStar) == RunIx(s, text, 1, Len(text), DevStar)
 Run(text) == RunFrom(A0, text, FALSE)
 
